@@ -373,6 +373,7 @@ def _split_rules(col, R, sfx):
         pos = ("param", 2, I.names.get(2))
         Lterm = None
         right_going = left_going = None
+        rg_all, lg_all = [], []
         for st in I.final_states:
             evs = st.event_list()
             rec = [e for e in evs if is_call_to(e, b)]
@@ -395,6 +396,7 @@ def _split_rules(col, R, sfx):
             res0, res1 = ("proj", 0, e.res), ("proj", 1, e.res)
             if side == R.RIGHT:
                 right_going = (st, e)
+                rg_all.append((st, e))
                 ok = ret == ("agg", "tuple", (root, res1)) and stores and stores[0].place == ("field", X, R.RIGHT) and stores[0].val == res0
                 key = "%s|right-going-assembly" % kb
                 if ok:
@@ -403,6 +405,7 @@ def _split_rules(col, R, sfx):
                     col.violation("T4" + sfx, key, b.loc(e.bb), "right-going split must set root.right to the first part of the recursive result and return (root, second part); got return %s" % tstr(ret))
             elif side == R.LEFT:
                 left_going = (st, e)
+                lg_all.append((st, e))
                 ok = ret == ("agg", "tuple", (res0, root)) and stores and stores[0].place == ("field", X, R.LEFT) and stores[0].val == res1
                 key = "%s|left-going-assembly" % kb
                 if ok:
@@ -432,29 +435,51 @@ def _split_rules(col, R, sfx):
             else:
                 col.violation("T4" + sfx, key, b.loc(e.bb), "split_by must recurse into the right child exactly when the predicate holds for root.item")
             continue
-        # positional arithmetic
-        st, e = right_going
-        arg = e.args[1]
-        # L := pos - 1 - arg  as a linear form; it must reduce to a single atom
-        d = zones.lin_sub(zones.lin_sub(zones.linearize(pos), zones.linearize(arg)), ({}, 1))
-        atoms = [(a, c) for a, c in d[0].items()]
+        # positional arithmetic, on every right-going and every left-going path (the size of the left child may be read by
+        # a `match` that splits the paths: Some(left) => left.item.size(), None => 0)
+        def left_none(st_):
+            return any(_known_none(st_.facts, x) for f_ in st_.facts for x in ([f_[1]] + list(subterms(f_[1])) if isinstance(f_[1], tuple) else []) if isinstance(x, tuple) and x and x[0] == "load" and isinstance(x[2], tuple) and x[2][0] == "field" and x[2][2] == R.LEFT) or any(isinstance(f_[1], tuple) and f_[1] and f_[1][0] == "discr" and isinstance(f_[1][1], tuple) and f_[1][1][0] == "load" and f_[1][1][2][0] == "field" and f_[1][1][2][2] == R.LEFT and _known_none(st_.facts, f_[1][1]) for f_ in st_.facts)
+
+        def good_L(Lt, st_):
+            """Lt is the size of the left child on this path: the size call (with its 0 default), the bare size call on a path
+            where the child exists, or 0 on a path where it does not"""
+            if Lt == mk_int(0):
+                return left_none(st_)
+            mentions_left = any(s_[0] == "field" and s_[2] == R.LEFT for s_ in subterms(Lt))
+            bare = isinstance(Lt, tuple) and Lt and Lt[0] == "call" and str(Lt[1]).endswith("::size")
+            return mentions_left and (_is_left_size(Lt, R) or bare)
+
+        Ls = []
+        ok_r, why_r = True, ""
+        for st, e in rg_all:
+            arg = e.args[1]
+            d = zones.lin_sub(zones.lin_sub(zones.linearize(pos), zones.linearize(arg)), ({}, 1))
+            atoms = [(a_, c_) for a_, c_ in d[0].items()]
+            if d[1] != 0 or len(atoms) > 1 or (atoms and atoms[0][1] != 1):
+                ok_r, why_r = False, "right-going recursion position %s is not pos - L - 1 for a single term L" % tstr(arg)
+                continue
+            Lterm = atoms[0][0] if atoms else mk_int(0)
+            Ls.append(Lterm)
+            z = zones.zone_of(st.facts, I.tys)
+            if not z.entails("Ge", arg, mk_int(0)):
+                ok_r, why_r = False, "facts do not entail pos > L so pos - L - 1 can underflow / mis-split at pos == L"
+            elif not good_L(Lterm, st):
+                ok_r, why_r = False, "L = %s is not the size of the left child" % tstr(Lterm)
         key = "%s|right-going-arith" % kb
-        if len(atoms) != 1 or atoms[0][1] != 1 or d[1] != 0:
-            col.violation("T4" + sfx, key, b.loc(e.bb), "right-going recursion position %s is not pos - L - 1 for a single term L" % tstr(arg))
-            continue
-        Lterm = atoms[0][0]
-        z = zones.zone_of(st.facts, I.tys)
-        under = z.entails("Ge", arg, mk_int(0))
-        mentions_left = any(s[0] == "field" and s[2] == R.LEFT for s in subterms(Lterm))
-        size_call = _is_left_size(Lterm, R)
-        if under and mentions_left and size_call:
+        e = rg_all[-1][1]
+        if ok_r and rg_all:
             col.ok("T4" + sfx, b.loc(e.bb), key, "pos > L entailed, recursion with pos - L - 1, L = size of left child or 0")
         else:
-            col.violation("T4" + sfx, key, b.loc(e.bb), "right-going branch: %s" % ("facts do not entail pos > L so pos - L - 1 can underflow / mis-split at pos == L" if not under else "L = %s is not the size of the left child" % tstr(Lterm)), {"L": tstr(Lterm), "facts": [(f[0], tstr(f[1]), f[2]) for f in st.facts if "pos" in tstr(f[1])]})
-        st2, e2 = left_going
-        z2 = zones.zone_of(st2.facts, I.tys)
+            col.violation("T4" + sfx, key, b.loc(e.bb), "right-going branch: %s" % why_r)
+            continue
+        ok_l = True
+        for st2, e2 in lg_all:
+            z2 = zones.zone_of(st2.facts, I.tys)
+            if not (e2.args[1] == pos and any(z2.entails("Le", pos, Lt) and good_L(Lt, st2) for Lt in Ls)):
+                ok_l = False
         key = "%s|left-going-arith" % kb
-        if e2.args[1] == pos and z2.entails("Le", pos, Lterm):
+        e2 = lg_all[-1][1]
+        if ok_l:
             col.ok("T4" + sfx, b.loc(e2.bb), key, "pos <= L entailed for the same L; recursion with pos")
         else:
             col.violation("T4" + sfx, key, b.loc(e2.bb), "left-going branch must be taken exactly when pos <= L (same L as subtracted on the other branch) and recurse with pos unchanged; got position %s" % tstr(e2.args[1]))
